@@ -34,6 +34,19 @@ def _text(with_colon):
     return st.lists(parts, min_size=0 if not with_colon else 1, max_size=12).map("".join)
 
 
+def _mangle(token, how, at):
+    if not how:
+        return token
+    t = token.rstrip("=")
+    if how == "bad-char":
+        k = at % (len(token) + 1)
+        return token[:k] + "*!_-"[at % 4] + token[k:]
+    want = {"cut1": 1, "cut2": 2, "cut3": 3, "single-pad": 2}[how]
+    while len(t) % 4 != want:
+        t = t[:-1]
+    return t + ("=" if how == "single-pad" else "")
+
+
 def strategy(tp):
     cred = st.fixed_dictionaries({
         "user": _text(False),                     # appended to the per-request tag
@@ -42,6 +55,10 @@ def strategy(tp):
         "scheme": st.sampled_from(["Basic", "Basic", "Basic", "basic", "BASIC"]),
         "verdict": st.booleans(),
         "new_conn": st.booleans(),
+        # "Malformed base64 is rejected": a token that is not RFC 4648 section 4 base64 (cut inside a 4-character quantum,
+        # one '=' where two are needed, a character outside the alphabet) must not yield credentials at all
+        "mangle": st.sampled_from([None, None, None, None, "cut1", "cut2", "cut3", "single-pad", "bad-char", None]),
+        "mangle_at": st.integers(0, 200),
     })
     return st.fixed_dictionaries({"creds": st.lists(cred, min_size=1, max_size=8)})
 
@@ -127,7 +144,8 @@ def execute(env, sc):
         for i, c in enumerate(creds):
             user = "%s.%d.%s" % (ns, i, c["user"])
             clear = (user + ":" + c["password"]).encode("utf-8")
-            hdr = c["scheme"] + " " * c["spaces"] + base64.b64encode(clear).decode()
+            token = _mangle(base64.b64encode(clear).decode(), c.get("mangle"), c.get("mangle_at", 0))
+            hdr = c["scheme"] + " " * c["spaces"] + token
             if conn is None or c["new_conn"]:
                 if conn is not None:
                     conn.close()
@@ -151,6 +169,15 @@ def execute(env, sc):
         tag = ("%s.%d." % (ns, i)).encode()
         mine = [q for q in lookups if urllib.parse.unquote_to_bytes(q.payload.split(b" ")[0]).startswith(tag) or q.payload.startswith(tag)]
         c = creds[i]
+        if c.get("mangle"):
+            r.label("malformed-token:" + c["mangle"])
+            r.nontrivial = True
+            if mine:
+                r.fail("malformed-base64-token-used-as-credentials:" + c["mangle"],
+                       "Proxy-Authorization token mangled by %s (not valid base64); the helper was asked %r" % (c["mangle"], [q.payload for q in mine]))
+            elif env.origin.arrivals_for("/%s-%d" % (ns, i)) or m.status == 200:
+                r.fail("request-with-malformed-base64-token-forwarded:" + c["mangle"], "status %s" % m.status)
+            continue
         if ":" in c["password"]:
             r.label("password-with-colon")
             r.nontrivial = True
